@@ -210,11 +210,23 @@ def oracle(case, src, out, S, O):
     return bad
 
 
-def reblock(src, out):
-    """runs the implementation on a recording file object; returns (exception or None, list of (offset, length) reads)"""
+def reblock(src, out, history=None):
+    """runs the implementation on a recording file object; returns (exception or None, list of (offset, length) reads).
+    history: what the SAME converter object is asked before the conversion (the result must not depend on it):
+    'query-last' a tracefield lookup of the last stored header word, 'gen-header' one regenerated trace header (leaves the
+    header memo in the other padding mode on irregular files), 'export' a SEG-Y export (substitutes the format code of files
+    that store none)"""
     f = CountingFile(src)
     try:
         with SgzConverter(f) as c:
+            if history == 'query-last' and c.stored_header_keys:
+                c.get_tracefield_values(c.stored_header_keys[-1])
+            elif history == 'gen-header':
+                c.gen_trace_header(c.tracecount - 1)
+            elif history == 'export':
+                quiet(c.convert_to_segy, out + '.sgy')
+                os.remove(out + '.sgy')
+            c.loader.clear_cache()
             f.log.clear()
             try:
                 quiet(c.convert_to_adv_sgz, out)
@@ -390,7 +402,7 @@ cases = build_cases(a.tier)
 records = []      # per case: what the correspondence needs
 src, out = os.path.join(D, 'src.sgz'), os.path.join(D, 'out.sgz')
 t_start = time.time()
-for case in cases:
+for case_no, case in enumerate(cases):
     canon = (case['shape'], case['irregular'], case['cfg'], case['route'])
     inp = {'shape': list(case['shape']), 'irregular': case['irregular'], 'headers': case['cfg'], 'route': case['route'], 'seed': case['seed']}
     for p in (src, out):
@@ -405,7 +417,14 @@ for case in cases:
     if S.is2d or S.bs != (4, 4, 1024) or S.rate != 2:
         R.notes.append(f'source {inp} is not a 2-bit default-layout 3D file: skipped')
         continue
-    exc, reads = reblock(src, out)
+    n_il_, n_xl_, ns_ = case['shape']
+    history = [None, None, 'query-last', 'gen-header', 'export'][case_no % 5]
+    if history == 'export' and n_il_ * n_xl_ * ns_ > 60000:
+        history = 'query-last'
+    if history:
+        inp['before_on_same_object'] = history
+        R.count('history=' + history)
+    exc, reads = reblock(src, out, history)
     if exc is not None:
         R.violation('oracle', inp, 'convert_to_adv_sgz raised ' + repr(exc)[:200])
         R.case(canon, True)
